@@ -7,5 +7,5 @@ CONSTANTS
   MaxReads = 3
   Wal = TRUE
   Mutant = "none"
-INVARIANTS TypeOK Durable Atomic OneCommit OkMeansComplete FaultMeansErrOrComplete NoDanglingTx Snapshot CrashAtomic RetryConverges
+INVARIANTS TypeOK Atomic OneCommit OkMeansComplete FaultMeansErrOrComplete NoDanglingTx Snapshot CrashAtomic RetryConverges Durable
 CHECK_DEADLOCK FALSE
